@@ -590,6 +590,37 @@ func (x *restoreX) call(call *ast.CallExpr, g gctx) bool {
 // rangeStmt: lists and maps.
 func (x *restoreX) rangeStmt(s *ast.RangeStmt, g gctx) {
 	c := x.c
+	// a loop over a short literal list of expressions (for _, v := range []T{a, b, c} { … }) is the
+	// body once per element, with v standing for the element
+	if cl, ok := ast.Unparen(s.X).(*ast.CompositeLit); ok && len(cl.Elts) > 0 && len(cl.Elts) <= 8 {
+		if vid, ok := s.Value.(*ast.Ident); ok {
+			if kid, isID := s.Key.(*ast.Ident); s.Key == nil || (isID && kid.Name == "_") {
+				vObj := c.Info.Defs[vid]
+				plain := true
+				for _, el := range cl.Elts {
+					if _, isKV := el.(*ast.KeyValueExpr); isKV {
+						plain = false
+					}
+				}
+				if vObj != nil && plain {
+					if c.Subst == nil {
+						c.Subst = map[types.Object]ast.Expr{}
+					}
+					prev, had := c.Subst[vObj]
+					for _, el := range cl.Elts {
+						c.Subst[vObj] = el
+						x.stmts(s.Body.List, g)
+					}
+					if had {
+						c.Subst[vObj] = prev
+					} else {
+						delete(c.Subst, vObj)
+					}
+					return
+				}
+			}
+		}
+	}
 	src, ok := c.Path(s.X, x.n)
 	if !ok || len(s.Body.List) != 1 {
 		x.other(s, g)
